@@ -43,6 +43,12 @@ impl Op {
         direction: Direction,
     ) -> usize {
         let forward = direction == Direction::Fwd;
+        // A step marked omit_fwd (omit_inv) is left out in the forward (inverse)
+        // direction, also when it is not a step of a pipeline
+        let omitted = if forward { "omit_fwd" } else { "omit_inv" };
+        if self.params.boolean(omitted) {
+            return operands.len();
+        }
         // Short form of (inverted && !forward) || (forward && !inverted)
         if self.descriptor.inverted != forward {
             return self.descriptor.fwd.0(self, ctx, operands);
